@@ -437,6 +437,17 @@ def runDynRF (c : Case) : List String :=
   let offsOf (ph am : Float32) : Array Float32 :=
     ((List.range (n * nb)).map fun r => if r < n then rfOffsetLinear tanv ax0.zerobin bl2 ax0.delta sync ph am r
                                         else f32zero).toArray
+  -- tracked particles: moved by the displacement field of THIS step (the one the grid was moved with)
+  let partsWith (off : Array Float32) : List String :=
+    if c.parts.isEmpty then [] else
+      let np := c.parts.size / 2
+      let res := (List.range np).foldl (fun (acc : List Float32) k =>
+        let px := c.parts.getD (2 * k) f32zero
+        let py := c.parts.getD (2 * k + 1) f32zero
+        match f32modf px with
+        | some (xi, xf) => acc ++ [px, applyToCoord n (fun i => off.getD i f32zero) py xi xf]
+        | none => acc ++ [px, Float32.ofBits 0x7fc00000]) []
+      [hexLine "parts" res]
   let applyWith (off : Array Float32) : List String :=
     match kickOutputs "y" n it nb 0 off c.data with
     | [_, outl] => [hexLine "off" (off.toList.take n), outl]
@@ -446,7 +457,7 @@ def runDynRF (c : Case) : List String :=
     match op with
     | "a" =>
       match d.apply with
-      | some (en, d') => (d', out ++ ["ops a"] ++ applyWith (offsOf en.1 en.2))
+      | some (en, d') => (d', out ++ ["ops a"] ++ applyWith (offsOf en.1 en.2) ++ partsWith (offsOf en.1 en.2))
       | none => (d, out ++ ["error queue-exhausted"])
     | "s" => (d, out ++ ["ops s"] ++ applyWith (offsOf sync one))
     | "f" =>
